@@ -28,6 +28,9 @@ type ScriptConfig struct {
 	LongLine bool
 	// Big marks a script with many statements.
 	Big bool
+	// Exotic: unusual white space in gaps; BOM: a UTF-8 byte-order mark at the very start.
+	Exotic bool
+	BOM    bool
 }
 
 // DrawScriptConfig draws a swarm configuration.
@@ -43,6 +46,8 @@ func DrawScriptConfig(r *prng.Rand) ScriptConfig {
 	if r.Chance(1, 40) {
 		c.MaxStmts = 0
 	}
+	c.Exotic = r.Chance(1, 8)
+	c.BOM = r.Chance(1, 50)
 	if r.Chance(1, 25) {
 		// a big script: input and output cross the buffer sizes a tool is likely to use (4 KiB, 64 KiB)
 		c.MaxStmts = r.Range(20, 90)
@@ -124,8 +129,11 @@ func contains(ss []string, s string) bool {
 }
 
 func render(sc *Script, r *prng.Rand, cfg ScriptConfig) {
-	l := &Layout{R: r, NewlinePct: cfg.NewlinePct, CommentPct: cfg.CommentPct, CRLF: cfg.CRLF}
+	l := &Layout{R: r, NewlinePct: cfg.NewlinePct, CommentPct: cfg.CommentPct, CRLF: cfg.CRLF, Exotic: cfg.Exotic}
 	sb := new(strings.Builder)
+	if cfg.BOM {
+		sb.WriteString("\ufeff")
+	}
 	// leading blank/comment lines
 	if r.Chance(1, 6) {
 		sb.WriteString(l.Gap(false, false))
